@@ -26,6 +26,11 @@ claimed = {
    text="Generated PAN-OS pairs (rules inserted/deleted/reordered/renamed, groups renamed/shared/split/duplicated, equal names with different values, unknown XML, uuid attributes, ignorable 'any' members, two vsys, response envelope and pretty-printed spelling) are run through the real compare; the emitted commands are executed on the XML model and each targeted vsys must end with the target's rules in order (members compared by expanded content), second compare empty, 'unchanged' only if equivalent. Known root cause F21 (service-group members sent with set) is set aside by signature.",
    note="Trusted: harness PAN-OS model (harness/panm): set merges, edit replaces, delete/move need existing nodes; calibrated on the repository's expected outputs (TestCorpusPANOS).",
    ref="DESIGN.md §3 C03"),
+ "C04": dict(
+   level="exploration", technique="property-based testing (rapid): generated NSX store pairs, REST script executed on an independent strict store model (PUT/PATCH/POST/DELETE with referential checks); rules compared per policy as multisets with groups expanded to address sets and services to definitions; left-over predicate; second compare must be empty",
+   text="Generated NSX pairs (several policies, rules sharing sequence numbers, groups renamed/shared/duplicated, small and large address-list changes, in-place service changes, id clashes, IPv6/raw parts) are run through the real compare; the emitted requests are executed on the store model and each policy must end with the target's rules, no left-over Netspoc service/group, second compare empty, 'unchanged' only if equivalent. Known root cause F32 (tied rules paired by listing order) is set aside by signature.",
+   note="Trusted: harness NSX model (harness/nsxm) incl. its reference merge of IPv4/IPv6/raw parts; calibrated on the repository's expected outputs (TestCorpusNSX, 42 of 44 covered).",
+   ref="DESIGN.md §3 C04"),
  "C07": dict(
    level="exploration", technique="property-based testing (rapid): device decorated with out-of-scope content; frame condition checked on the model after every executed command",
    text="Generated pairs whose device side carries content outside Netspoc's scope; the protected set is computed by the harness from the property's definition (independently of the tool's needed/toDelete marking) and its text must be identical after every step of the emitted script executed on the model.",
